@@ -10,7 +10,7 @@ PROC_TIMEOUT = 1500
 RULE = ('schedules of the cooperative scheduler (scheduling points = wrapped pthread calls): for each scenario '
         '(ExecutorThread with 0-3 producers x 0-3 callbacks; FutureImpl raw-pointer pattern; FutureImpl with 0-2 '
         'extra getter copies; ExecutorThread with callbacks that call Execute again; SelectServer::Execute from 1-3 threads with callbacks that call Execute again, 0-3 RunOnce '
-        'iterations, rest drained by the destructor; PeriodicThread constructor + Stop with schedulable time-outs of the timed wait) the non-preemptive run, every single preemption (position x thread), pairs of '
+        'iterations, rest drained by the destructor; PeriodicThread constructor + Stop with schedulable time-outs of the timed wait; ThreadPool with two workers and 1-3 closures; the event loop blocks in select() (wrapped) and a sleeping loop with queued callbacks and an empty pipe is reported as lost-wakeup) the non-preemptive run, every single preemption (position x thread), pairs of '
         'preemptions (all in thorough, sampled in quick except for the two small Future scenarios, where all pairs run in quick), injected spurious wake-ups at every position (alone and '
         'combined with a preemption), and random schedules; non-trivial = the run has >= 1 wait/wake or >= 1 callback '
         'run and ends normally; distinct = distinct model output line (trace of synchronisation operations)')
@@ -21,7 +21,7 @@ ASSUMPTIONS = ['the wrapped pthread entry points are the only synchronisation in
 TRUSTED = ['modelled rather than verified: ExecutorThread::{Execute,Start,Stop,RunRemaining,~ExecutorThread}, '
            'ConsumerThread::{Run,EmptyQueue}, Thread::{Start,FastStart,Join,IsRunning,_InternalRun}, '
            'FutureImpl<T>::{Get,Set,Ref,DeRef}, Future<T> copy/destructor, SelectServer::{Execute,DrainAndExecute,RunCallbacks,'
-           'DrainCallbacks,~SelectServer} with the wake pipe as a counter, PeriodicThread::{PeriodicThread,Run,Stop} (hand transcription into the '
+           'DrainCallbacks,~SelectServer} with the wake pipe as a counter, PeriodicThread::{PeriodicThread,Run,Stop}, ThreadPool::{Init,Execute,JoinAll,~ThreadPool} with two workers (hand transcription into the '
            'instruction lists of coq/Progs.v, validated per schedule by trace equality)',
            'props/C17/harness.cpp cooperative scheduler and pthread emulation (ld --wrap)']
 
@@ -33,7 +33,7 @@ def sj(l):
 SCENARIOS_Q = [('exec -', 30, 2), ('exec 1', 45, 3), ('exec 2', 55, 3), ('exec 1,1', 70, 4), ('exec 2,1', 80, 4),
                ('exec 0,3', 80, 4), ('futraw', 16, 2), ('futcopy 0', 26, 2), ('periodic', 30, 2), ('pool 1', 70, 3), ('pool 2', 85, 3), ('pool 3', 100, 3), ('futcopy 1', 40, 3), ('futcopy 2', 50, 4),
                ('execre 1 1', 60, 3), ('execre 2 1', 75, 3), ('execre 1,1 1,1', 90, 4),
-               ('ss 1 1 0', 25, 2), ('ss 2 1 1', 40, 2), ('ss 3 2 0', 40, 2), ('ss 1,1 0,0 1', 40, 3), ('ss 2,1 1,1 2', 60, 3)]
+               ('ss 2 0 2', 25, 2), ('ss 1 1 0', 25, 2), ('ss 2 1 1', 40, 2), ('ss 3 2 0', 40, 2), ('ss 1,1 0,0 1', 40, 3), ('ss 2,1 1,1 2', 60, 3)]
 SCENARIOS_T = SCENARIOS_Q + [('execre 2,1 2,0', 100, 4), ('ss 2,2 2,1 3', 90, 3), ('ss 1,1,1 1,0,1 2', 80, 4), ('exec 3', 65, 3), ('exec 1,1,1', 95, 5), ('exec 2,2', 90, 4), ('exec 3,0,2', 110, 5)]
 
 
@@ -42,7 +42,7 @@ def gen_cases(rng, tier):
     scen = SCENARIOS_Q if quick else SCENARIOS_T
     for name, L, nt in scen:
         L = L + L // 2          # scheduling points after every unlock make the runs longer
-        small = name in ('futraw', 'futcopy 0')
+        small = name in ('futraw', 'futcopy 0', 'ss 2 0 2')
         yield '%s -' % name
         # one preemption: every position x every choice
         for i in range(L):
@@ -86,24 +86,26 @@ def nontrivial(payload, md):
 
 
 LEVEL_TEXT = ('Coq theorems over ALL schedules (induction on the step relation of an explicit-schedule machine with '
-              'spurious wake-ups and time-outs of timed waits). ExecutorThread with any number of producers/callbacks: '
-              'exactly once, queued order, never by the submitter, drained when the owner finishes (c17_exec_once); '
-              'wake-up invariant and deadlock freedom (c17_wakeup_invariant, c17_no_lost_wakeup). SelectServer::Execute/'
-              'DrainAndExecute/RunCallbacks/~SelectServer with callbacks that call Execute again: same statement '
-              '(c17_ss_exec_once). PeriodicThread constructor/Run/Stop: no hazard, after Stop set m_terminate the callback '
-              'runs at most once more in every continuation, and some non-sleeping thread can always step until Stop '
-              'returns - no state where Stop is blocked while the thread only times out (c17_periodic_stop, '
-              'c17_periodic_no_deadlock). Locksets and lock discipline for all transcribed programs (c17_lockset, '
-              'c17_lock_discipline, c17_no_bad_unlock). FutureImpl raw-pointer and two-holder patterns: no use-after-free/'
-              'double free, Get returns the value set after Set (c17_future_raw, c17_future_two_holders). '
+              'spurious wake-ups and time-outs of timed waits / poll). ExecutorThread with any number of producers/'
+              'callbacks: exactly once, queued order, never by the submitter, drained when the owner finishes; wake-up '
+              'invariant and deadlock freedom (c17_exec_once, c17_wakeup_invariant, c17_no_lost_wakeup). SelectServer::'
+              'Execute/DrainAndExecute/RunCallbacks/~SelectServer with a BLOCKING poll on the wake-up pipe and callbacks that '
+              'call Execute again: same exactly-once statement, and no lost wake-up: queued callbacks are always announced '
+              'by a byte in the pipe, or the loop is past a successful poll / in the destructor drain, or a producer is '
+              'between push and pipe write (c17_ss_exec_once, c17_ss_no_lost_wakeup, c17_ss_poll_not_lost). PeriodicThread: '
+              'callback at most once more after Stop set m_terminate, never only time-outs left (c17_periodic_stop, '
+              'c17_periodic_no_deadlock). Locksets and lock/popped-callback discipline for all transcribed programs '
+              'including ThreadPool (c17_lockset, c17_lock_discipline, c17_no_bad_unlock). FutureImpl raw-pointer and '
+              'two-holder patterns (c17_future_raw, c17_future_two_holders). '
               'NOT proved for all schedules, only checked per enumerated schedule (scheduling points before every wrapped '
-              'pthread call and after every unlock; ASan in the harness child) by trace equality with the real classes: '
-              'FutureImpl with more than two holders; ExecutorThread with callbacks that call Execute again (execre); '
-              'deadlock freedom of the SelectServer scenario; that Stop() of PeriodicThread terminates is proved only as '
-              'deadlock freedom + the bound on callback runs, not as a fairness/termination theorem. NOT modelled: '
-              'SelectServer::Terminate (unlocked m_is_running read), poller/timeouts, ThreadPool, '
-              'FilePreferenceSaverThread::Synchronize, ExecutorThread::DrainCallbacks itself, a PeriodicThread callback '
-              'that returns false.')
+              'pthread call / select() and after every unlock; ASan in the harness child) by trace equality with the real '
+              'classes: ThreadPool exactly-once and no-lost-wake-up (c17_pool_exec_once / c17_pool_no_lost_wakeup are NOT '
+              'proved: two workers, plain closures, Init/Execute/JoinAll are modelled and checked against the real '
+              'ThreadPool); FutureImpl with more than two holders; ExecutorThread with callbacks that call Execute again '
+              '(execre); deadlock freedom of the SelectServer scenario beyond the wake-up invariant. NOT modelled: closures '
+              'that block on a Future inside the pool, SelectServer::Terminate (unlocked m_is_running read), timeouts/other '
+              'descriptors of the poller, FilePreferenceSaverThread::Synchronize, ExecutorThread::DrainCallbacks itself, '
+              'a PeriodicThread callback that returns false.')
 LEVEL_NOTE = ('Trusted: Coq kernel, extraction (ExtrOcamlBasic), OCaml/C++ glue, the hand transcription of the C++ '
               'methods into instruction lists (validated by per-schedule trace equality, not proved), the pthread '
               'emulation in the harness (ld --wrap; one thread runs at a time, so real memory-model races are not '
